@@ -178,8 +178,9 @@ PROPS = {
         'level_text': 'Tails of both App.__call__: WSGI start_response monitor and ASGI send-session monitor (INIT/STARTED/DONE) with send and stream failures '
                       'at every event, body precedence text>data>media>stream (media rendered exactly once by the handler resolved for the response content type), '
                       'Content-Length = len(body) for symbolic text/data/rendered media, bodiless HEAD/1xx/204/304, '
-                      'typeless 204/304, stream closed exactly once on every exit, for arbitrary filled-in responses; symbolic ASGI status codes.',
-        'level_note': 'WSGI statuses are a representative list (lines, ints, HTTPStatus, custom reason, unknown code). The SSE branch is not decided here; the '
+                      'typeless 204/304, stream closed exactly once on every exit (ASGI tail; WSGI iterator lifecycle next* then close), server-sent events (start announcing '
+                      'text/event-stream, events with more_body, one final event, watcher cancelled), for arbitrary filled-in responses; symbolic ASGI status codes.',
+        'level_note': 'WSGI statuses are a representative list (lines, ints, HTTPStatus, custom reason, unknown code). The SSE branch runs with a stub disconnect-watcher task and stub events (text format of an event not specified); the '
                       'media handler is a stub returning arbitrary bytes (C11/C12). utf-8 encoding is an uninterpreted function. Recorded known finding: a 204/304 '
                       'whose body source is resp.media carries the framework default Content-Type.',
     },
